@@ -33,7 +33,7 @@ def spin_shapes(rng, n):
         ap = rng.choice(appends)
         pat = rng.choice(pats)
         hd = rng.choice(handlers)
-        kind = rng.randrange(21)
+        kind = (k - 3) % 21 if k >= 3 else rng.randrange(21)
         if kind == 0:
             body = f'"x"; loop {{ try {{ {ap} {pat}; }} catch (outofspace) {{ {hd} }} }}'
         elif kind == 1:
@@ -102,7 +102,7 @@ def spin_shapes(rng, n):
         src = decl + "parser {\n  " + body + "\n}\n"
         out.append({"name": f"spin-{k}", "src": src, "feats": {}, "args": ["-fyield-support"] if 14 <= kind < 99 and kind not in (17, 18) else [],
                     "origin": "spin-shape", "shape": kind,
-                    "level": "-O0" if kind == 99 else rng.choice(["-O3", "-O3", "-O1"]) if 14 <= kind < 99 and kind not in (17, 18) else rng.choice(["-O0", "-O1", "-O3"])})
+                    "level": "-O0" if kind == 99 else ["-O3", "-O1", "-O3"][(k // 21) % 3] if 14 <= kind < 99 and kind not in (17, 18) else ["-O0", "-O1", "-O3"][(k // 21) % 3]})
     return out
 
 
